@@ -46,6 +46,7 @@ def run(ctx):
     ctx.rule(shift_register)
     ctx.rule(carry_reset)
     ctx.rule(_frames_not_written)
+    ctx.rule(_second_chunk_accepted)
 
 
 def driver(ctx, R="R-C01-driver"):
@@ -669,3 +670,11 @@ def _frames_not_written(ctx, R="R-C01-frame-aliasing"):
     analysis shared with C04: nothing reachable from compute_chunk / compute_full writes through an alias of the input."""
     from .c04 import readonly
     readonly(ctx, R)
+
+
+
+def _second_chunk_accepted(ctx, R="R-C01-chunk-dtype"):
+    """A signal cut into chunks is accepted exactly as the whole signal is: the dtype test applied to the second and later
+    chunks compares with the first chunk's own dtype (rule shared with C03)."""
+    from .c03 import chunk_dtype_fixed_point
+    chunk_dtype_fixed_point(ctx, R)
